@@ -28,6 +28,10 @@ def digests(machine, seed, n, nproc):
 
 
 def main(seed, only=None):
+    return runner.with_scratch(lambda: _main(seed, only))
+
+
+def _main(seed, only=None):
     from dst.main import get_machine
     if os.environ.get('VERIF_SELFTEST_CHILD'):
         pid = os.environ['VERIF_SELFTEST_CHILD']
